@@ -144,6 +144,8 @@ func ErrClass(err error) uint64 {
 // earlier history is visible to a later one (the global message-id index is
 // shared by all channels of one database).
 type Env struct {
+	// NoDumps suppresses the read-back after mutations (C09 observes crash clones instead).
+	NoDumps bool
 	// FS, when set, is the (crash-simulating) file system Pebble runs on; nil = the real disk.
 	FS     vfs.FS
 	dir    string
@@ -790,6 +792,9 @@ func (e *Env) Exec(op Op) (Out, []Dump) {
 		panic("unknown op kind " + op.K)
 	}
 	var dumps []Dump
+	if e.NoDumps {
+		return out, nil
+	}
 	switch {
 	case op.K == "reopen" || op.K == "cbatch":
 		for i := 0; i < NChans; i++ {
